@@ -240,6 +240,7 @@ def container_path_stream(ctx, res, n):
         holder.servers = cc.ListField(srv, default=lambda: [])
         holder.quota = Quota
         holder.quotas = cc.ListField(Quota, default=lambda: [])
+        holder.quota2 = Quota
         holder.cells = cc.DictField(None, cc.IntField(), default=dict)
         holder.named = cc.DictField(cc.StringField(), cc.IntField(), default=dict)
         c = s()
@@ -249,9 +250,8 @@ def container_path_stream(ctx, res, n):
         nsrv = rng.randint(1, 3)
         h.servers = [{"name": "s%d" % j, "net": {"host": "h"}} for j in range(nsrv)]
         pre = ".".join(prefix) + ("." if prefix else "")
-        holder.quota2 = Quota
         what = rng.choice(["item-default-dict", "ctype-default-dict", "appended-ctype-dict", "cfg-object-append", "cfg-object-assign", "tuple-key", "tuple-key-load",
-                           "after-earlier-item-deleted", "after-attach", "moved-between-fields"])
+                           "after-earlier-item-deleted", "after-attach", "moved-between-fields", "loaded-then-earlier-item-deleted", "popped-item-assigned-to-field"])
         key = rng.choice(["cpu", "mem"])
         how = rng.choice(["set", "update", "ior", "setdefault"])
 
@@ -307,6 +307,29 @@ def container_path_stream(ctx, res, n):
                 else:
                     want = "%sservers[%d].name" % (pre, j - 1)
                     item.name = 5
+            elif what == "loaded-then-earlier-item-deleted":
+                # the list comes from a tree / document load, not from an assignment
+                t = {"servers": [{"name": "l%d" % j, "net": {"host": "h"}} for j in range(3)]}
+                for p in reversed(prefix):
+                    t = {p: t}
+                if rng.random() < 0.5:
+                    c.load_tree(t)
+                else:
+                    c.loads(json.dumps(t).encode(), format="json")
+                h = c                                          # (a load replaces the nested configuration objects)
+                for p in prefix:
+                    h = h[p]
+                item = h.servers[2]
+                del h.servers[0]
+                want = "%sservers[1].name" % pre
+                item.name = 5
+            elif what == "popped-item-assigned-to-field":
+                h.quotas.append(Quota())
+                h.quotas.append(Quota())
+                q = h.quotas.pop(1)
+                h.quota2 = q
+                want = "%squota2.limits[%s]" % (pre, key)
+                put(q.limits, key, "lots")
             elif what == "after-attach":
                 q = Quota()
                 try:
